@@ -18,6 +18,7 @@ from pathlib import Path
 
 FILE = 'femio/geometry_processor.py'
 CLASS = 'GeometryProcessorMixin'
+DROP_FILE, DROP_CLASS, DROP_METHOD = 'femio/fem_data.py', 'FEMData', '_clear_query_caches'
 ABS_FUNCS = {'abs', 'absolute', 'fabs'}
 COPY_FUNCS = {'array', 'asarray', 'asanyarray', 'ascontiguousarray', 'copy'}
 
@@ -257,6 +258,15 @@ class Store(Answers):
             env2 = dict(env)
             env2['$t'] = ('tbl', '(Some (mkentry v None))')
             return env2
+        # self.elemental_data.pop(key) / del self.elemental_data[key]
+        if isinstance(s, ast.Expr) and isinstance(s.value, ast.Call) and _fname(s.value.func) == 'pop' and \
+                isinstance(s.value.func, ast.Attribute) and isinstance(s.value.func.value, ast.Attribute) and \
+                s.value.func.value.attr == 'elemental_data' and len(s.value.args) in (1, 2) and \
+                isinstance(s.value.args[0], ast.Name) and env.get(s.value.args[0].id, ('',))[0] == 'key' or \
+                isinstance(s, ast.Delete) and len(s.targets) == 1 and self._is_entry(s.targets[0], env):
+            env2 = dict(env)
+            env2['$t'] = ('tbl', f'(pop_present {env["$t"][1]})')
+            return env2
         # self.elemental_data[key].options = options
         if isinstance(s, ast.Assign) and len(s.targets) == 1 and isinstance(s.targets[0], ast.Attribute) and \
                 s.targets[0].attr == 'options' and self._is_entry(s.targets[0].value, env) and \
@@ -313,8 +323,28 @@ def translate(repo):
         raise SlotTranslateError(f'_store_slot: parameters {ps} not recognised')
     env = {ps[0]: ('ids', ''), ps[1]: ('key', ''), ps[2]: ('values', 'v'), ps[3]: ('opts', 'o'), '$t': ('tbl', 't')}
     out['store'] = Store('_store_slot').run(list(fn.body), env, fn)
+    # ---- the drop done by the in-place modifiers: FEMData._clear_query_caches, the loop over the
+    #      literal slot names (its body decides which entries go)
+    dsrc = (Path(repo) / DROP_FILE).read_text()
+    dcls = [n for n in ast.parse(dsrc).body if isinstance(n, ast.ClassDef) and n.name == DROP_CLASS]
+    dm = {n.name: n for n in (dcls[0].body if dcls else []) if isinstance(n, ast.FunctionDef)}
+    if DROP_METHOD not in dm:
+        raise SlotTranslateError(f'{DROP_CLASS}.{DROP_METHOD} not found')
+    loops = [n for n in ast.walk(dm[DROP_METHOD]) if isinstance(n, ast.For) and isinstance(n.target, ast.Name)
+             and isinstance(n.iter, (ast.Tuple, ast.List)) and n.iter.elts
+             and all(isinstance(x, ast.Constant) and isinstance(x.value, str) for x in n.iter.elts)
+             and 'elemental_data' in ast.dump(n)]
+    if len(loops) != 1 or loops[0].orelse:
+        raise SlotTranslateError(f'{DROP_METHOD}: the loop over the slot names was not found')
+    names = sorted(x.value for x in loops[0].iter.elts)
+    if names != ['area', 'metric', 'volume']:
+        raise SlotTranslateError(f'{DROP_METHOD}: drops {names}, expected the three slot names')
+    env = {loops[0].target.id: ('key', ''), '$t': ('tbl', 't')}
+    out['drop'] = Store(DROP_METHOD).run(list(loops[0].body), env, loops[0])
+    meths[DROP_METHOD] = dm[DROP_METHOD]
     return out, {FILE + '::slot helpers': __import__('hashlib').sha256(
-        '\n'.join(ast.unparse(meths[m]) for m in ('_validate_metric', '_slot_answers', '_store_slot')).encode()).hexdigest()}
+        '\n'.join(ast.unparse(meths[m]) for m in ('_validate_metric', '_slot_answers', '_store_slot',
+                                                   DROP_METHOD)).encode()).hexdigest()}
 
 
 def emit(terms):
@@ -333,6 +363,8 @@ Definition entry_user (t : option entry) : bool :=
 Definition set_opts (t : option entry) (o : opts) : option entry :=
   match t with Some e => Some (mkentry (e_vals e) (Some o)) | None => None end.
 
+Definition pop_present (t : option entry) : option entry := None.
+
 Definition validate_gen (r a : bool) (m : list Q) : res :=
   {terms['validate']}.
 Definition slot_answers_gen (so : option opts) (o : opts) : bool :=
@@ -340,6 +372,17 @@ Definition slot_answers_gen (so : option opts) (o : opts) : bool :=
 Definition store_slot_gen (t : option entry) (v : list Q) (o : opts) : option entry :=
   let so := match t with Some e => e_opts e | None => None end in
   {terms['store']}.
+
+(* FEMData._clear_query_caches: body of the loop over the three slot names *)
+Definition drop_slot_gen (t : option entry) : option entry :=
+  let so := match t with Some e => e_opts e | None => None end in
+  {terms['drop']}.
+
+Lemma drop_slot_gen_ok : forall t, drop_slot_gen t = drop_slot t.
+Proof.
+  intros [e|]; unfold drop_slot_gen, drop_slot, user_part; simpl; [|reflexivity].
+  destruct (e_opts e) as [o'|]; simpl; reflexivity.
+Qed.
 
 Lemma validate_gen_ok : forall o m, validate_gen (o_raise o) (o_abs o) m = validate o m.
 Proof.
@@ -394,9 +437,14 @@ Theorem C19_translated_store_keeps_user_variable : forall u v o, e_opts u = None
   store_slot_gen (Some u) v o = Some u.
 Proof. intros u v o H. rewrite store_slot_gen_ok. apply store_slot_keeps_user. exact H. Qed.
 
+(* the modifiers' drop as translated keeps a variable of that name the user stored *)
+Theorem C19_translated_drop_keeps_user_variable : forall u, e_opts u = None -> drop_slot_gen (Some u) = Some u.
+Proof. intros u H. rewrite drop_slot_gen_ok. unfold drop_slot. apply user_part_user. exact H. Qed.
+
 Print Assumptions C19_translated_revalidation_idempotent.
 Print Assumptions C19_translated_slot_call_pure.
 Print Assumptions C19_translated_store_keeps_user_variable.
+Print Assumptions C19_translated_drop_keeps_user_variable.
 '''
 
 
